@@ -1,6 +1,6 @@
 """Real shells on a real pty behind a re-fragmenting transport: the environment of the shell
 properties (C01, C09, C10, C11).  Nothing in tbot is patched; `FragIO` is an ordinary ChannelIO."""
-import fcntl, os, pty, select, struct, subprocess, sys, tempfile, termios, time
+import fcntl, os, pty, random, select, struct, subprocess, sys, tempfile, termios, time
 
 import tbot
 import tbot.error
@@ -46,7 +46,8 @@ class FragIO(tch.ChannelIO):
         _, w, _ = select.select([], [self.master], [], 10.0)
         if self.master not in w:
             raise TimeoutError("write timeout exceeded")
-        n = os.write(self.master, buf)
+        # a transport may take fewer bytes than it is given (`wmax`: how many at most this time)
+        n = os.write(self.master, buf[: self.wmax()] if getattr(self, "wmax", None) else buf)
         self.tx += buf[:n]
         return n
 
@@ -146,6 +147,11 @@ def make_machine(kind, sizes=None, linger=0.0, chunk=None, inherited=False):
                 ch._write_blacklist = list(FOREIGN_BLACKLIST)
                 ch.prompt = FOREIGN_PROMPT
                 ch = ch.take()
+                # … and it is a slow console whose transport takes a few bytes at a time
+                ch.slow_send_delay = 0.0002
+                ch.slow_send_chunksize = 24
+                _rng = random.Random(chunk)
+                io.wmax = lambda: _rng.choice([1, 2, 5, 17, 24, 4096])
             return ch
 
         def clone(self):
